@@ -68,6 +68,9 @@ Definition misc_str (n : node) : str :=
    width > 0 -> TextWrappingSerializer (a PrettySerializer whose writer is a _LengthTrackingWriter) *)
 Inductive skind := KPlain | KPretty | KWrap.
 
+Definition is_pretty (k : skind) : bool := match k with KPlain => false | _ => true end.
+Definition kind_nat (k : skind) : nat := match k with KPlain => 0 | KPretty => 1 | KWrap => 2 end.
+
 (* possible_newline = "\n" if isinstance(serializer, PrettySerializer) else "" *)
 Definition pnl (k : skind) : str := match k with KPlain => [] | _ => [LF] end.
 
@@ -164,10 +167,18 @@ Fixpoint skip_ws (s : str) : str :=
   match s with c :: r => if is_xml_ws c then skip_ws r else s | [] => [] end.
 Definition starts_ws (s : str) : bool := match s with c :: _ => is_xml_ws c | [] => false end.
 
-(* NameChar, ASCII part exact, everything from U+0080 on accepted *)
-Definition is_name_char (c : char) : bool :=
-  (((97 <=? c) && (c <=? 122)) || ((65 <=? c) && (c <=? 90)) || ((48 <=? c) && (c <=? 58))   (* a-z A-Z 0-9 : *)
-   || (c =? 45) || (c =? 46) || (c =? 95) || (128 <=? c))%bool.                              (* - . _ *)
+(* Name characters of XML 1.0 (5th edition), without ":" - a namespace-aware reader wants an NCName
+   as PI target, and so does lxml when a PI is created *)
+Definition in_ranges (t : list (N * N)) (c : char) : bool :=
+  existsb (fun r => ((fst r <=? c) && (c <=? snd r))%bool) t.
+Definition name_start_ranges : list (N * N) :=
+  [(65, 90); (95, 95); (97, 122); (192, 214); (216, 246); (248, 767); (880, 893); (895, 8191); (8204, 8205);
+   (8304, 8591); (11264, 12271); (12289, 55295); (63744, 64975); (65008, 65533); (65536, 983039)].
+Definition name_extra_ranges : list (N * N) := [(45, 46); (48, 57); (183, 183); (768, 879); (8255, 8256)].
+Definition is_name_start (c : char) : bool := in_ranges name_start_ranges c.
+Definition is_name_char (c : char) : bool := in_ranges (name_start_ranges ++ name_extra_ranges) c.
+Definition name_ok (t : str) : bool :=
+  match t with c :: _ => (is_name_start c && forallb is_name_char t)%bool | [] => false end.
 
 Fixpoint span (p : char -> bool) (s : str) : str * str :=
   match s with
@@ -197,7 +208,7 @@ Fixpoint comment_ok (c : str) : bool :=
 (* after "<?": target, then either "?>" or whitespace and the content up to the first "?>" *)
 Definition read_pi (s : str) : option (str * str * str) :=
   let '(t, r) := span is_name_char s in
-  if null t then None
+  if negb (name_ok t) then None
   else if py_prefix L_PI_CLOSE r then Some (t, [], skipn 2 r)
   else if starts_ws r then
          match read_until L_PI_CLOSE (skip_ws r) with Some (c, r') => Some (t, c, r') | None => None end
@@ -241,6 +252,13 @@ Definition read_eq (s : str) : option str :=
 Definition read_quoted (s : str) : option (str * str) :=
   match s with q :: r => if ((q =? 34) || (q =? 39))%bool then read_until [q] r else None | [] => None end.
 
+(* VersionNum ::= '1.' [0-9]+ *)
+Definition version_ok (v : str) : bool :=
+  match v with
+  | 49 :: 46 :: d :: r => forallb (fun c => ((48 <=? c) && (c <=? 57))%bool) (d :: r)
+  | _ => false
+  end.
+
 (* XMLDecl ::= '<?xml' VersionInfo EncodingDecl? S? '?>'   (SDDecl is not modelled).
    Returns the declared encoding.  No declaration is not an error. *)
 Definition parse_decl (s : str) : res (option str * str) :=
@@ -257,7 +275,8 @@ Definition parse_decl (s : str) : res (option str * str) :=
             | Some r2 =>
                 match read_quoted r2 with
                 | None => Err
-                | Some (_, r3) =>
+                | Some (v, r3) =>
+                    if negb (version_ok v) then Err else
                     match expect L_ENCODING (skip_ws r3) with
                     | None => match expect L_PI_CLOSE (skip_ws r3) with
                               | Some r8 => Ok (None, r8)
@@ -319,8 +338,7 @@ Definition doc_read {bytes : Type} (read_root : str -> option (node * str)) (dec
 (* the domain: what XML can hold in a comment / PI next to the root *)
 
 Definition no_cr (s : str) : bool := forallb (fun c => negb (c =? CR)) s.
-Definition pi_target_ok (t : str) : bool :=
-  (negb (null t) && forallb is_name_char t && negb (str_eqb (lower t) L_xml))%bool.
+Definition pi_target_ok (t : str) : bool := (name_ok t && negb (str_eqb (lower t) L_xml))%bool.
 Definition pi_content_ok (c : str) : bool := (negb (starts_ws c) && negb (py_contains c L_PI_CLOSE))%bool.
 Definition misc_ok (n : node) : bool :=
   match n with
@@ -416,7 +434,7 @@ Definition toy_read (s : str) : option (node * str) :=
   match s with
   | 60 :: r =>
       let '(name, r') := span is_name_char r in
-      if null name then None
+      if negb (name_ok name) then None
       else match r' with
            | 47 :: 62 :: r'' => Some (Tag [] name [] [], r'')
            | _ => None
@@ -425,7 +443,7 @@ Definition toy_read (s : str) : option (node * str) :=
   end.
 Definition toy_root_ok (n : node) : bool :=
   match n with
-  | Tag _ (c :: name) _ _ => (is_name_char c && forallb is_name_char name)%bool
+  | Tag _ name _ _ => name_ok name
   | _ => false
   end.
 (* toy codecs: "ascii" refuses everything from U+0080 on; the identity otherwise *)
@@ -446,3 +464,13 @@ Definition enc_parse (r : res (option str * doc)) : list N :=
   | OutOfFuel => [2]
   end.
 Definition enc_opt_doc (o : option doc) : list N := match o with Some d => 1 :: enc_doc d | None => [0] end.
+
+(* observations evaluated by the check *)
+Definition b2n (b : bool) : N := if b then 1 else 0.
+(* the stream of write/save (ls = os.linesep) or of str() (ls = "\n"), the root's serialization given *)
+Definition obs_serialize (k : skind) (enc ls : str) (nl : newline) (rootc : str) (d : doc) : list N :=
+  [b2n (doc_ok d); b2n (root_shape rootc); b2n (no_cr rootc); b2n (label_ok enc)]
+  ++ nl_out ls nl (doc_serialize (fun k => k) (fun _ _ => rootc) enc k d).
+Definition obs_parse (rc rp : bool) (s : str) : list N := enc_parse (parse_doc_with toy_read rc rp (nl_in s)).
+Definition obs_set_root (d tgt : doc) : list N := enc_opt_doc (set_root d tgt).
+Definition obs_strip (rc rp : bool) (d : doc) : list N := enc_doc (strip_doc rc rp d).
